@@ -44,6 +44,7 @@ type PluginConf struct {
 	KeyPEM      string            `json:"key_pem,omitempty"`
 	ExitMarker  string            `json:"exit_marker,omitempty"`
 	ExitDelayMs int               `json:"exit_delay_ms,omitempty"`
+	InitDelayMs int               `json:"init_delay_ms,omitempty"`
 	Impostor    string            `json:"impostor,omitempty"` // hand-made AutoMTLS plugin, see cmd/vplugin/impostor.go
 }
 
